@@ -204,7 +204,7 @@ func silenceScenario(role string, n int, pattern string) {
 		verdict("C09", mode, "logon", "fail: logon exchange did not complete", tags...)
 		return
 	}
-	logonAt := time.Now() // the timers start with the logon: their ticks are counted from here
+	logonAt := time.Now()      // the timers start with the logon: their ticks are counted from here
 	loggedUntil := time.Time{} // set when the session stops being logged on (disconnect)
 	defer func() {
 		end := loggedUntil
@@ -378,6 +378,80 @@ func stopDeadline(role string, d time.Duration) {
 	}
 }
 
+// C10: the messages a session emits from its own timers are stored like any other: a ResendRequest
+// for the first of several timer heartbeats gets those very messages back, each under its own number.
+func resendTimerHeartbeats(role string) {
+	mode := "resend-timer-heartbeats"
+	tags := []string{"role=" + role}
+	l, err := live.Start(live.Config{Role: role, Hb: 1, Buf: 10})
+	if err != nil {
+		verdict("C10", mode, "setup", "fail: "+err.Error(), tags...)
+		return
+	}
+	defer l.Shutdown()
+	if !l.Logon(1) {
+		verdict("C10", mode, "logon", "fail: logon exchange did not complete", tags...)
+		return
+	}
+	// keep the session from probing: the peer sends a heartbeat every 0.5 s; collect three timer heartbeats
+	stop := make(chan struct{})
+	go func() {
+		for {
+			select {
+			case <-stop:
+				return
+			case <-time.After(500 * time.Millisecond):
+				_ = l.Send(l.PeerMsg("0", ""))
+			}
+		}
+	}()
+	var hbs []live.Msg
+	deadline := time.Now().Add(5 * time.Second)
+	for len(hbs) < 3 && time.Now().Before(deadline) {
+		m, ok := l.WaitType("0", time.Until(deadline))
+		if !ok {
+			break
+		}
+		if _, has := live.Field(m.Raw, "112"); !has {
+			hbs = append(hbs, m)
+		}
+	}
+	close(stop)
+	if len(hbs) < 3 {
+		verdict("C10", mode, "heartbeats", "skip: fewer than three timer heartbeats within 5 s", tags...)
+		return
+	}
+	first, last := hbs[0].Seq, hbs[1].Seq
+	_ = l.Send(l.PeerMsg("2", fmt.Sprintf("7=%d\x0116=%d\x01", first, last)))
+	got := map[int][]byte{}
+	deadline = time.Now().Add(2 * time.Second)
+	for len(got) < last-first+1 && time.Now().Before(deadline) {
+		m, ok := l.WaitType("0", time.Until(deadline))
+		if !ok {
+			break
+		}
+		if m.Seq >= first && m.Seq <= last && m.At.After(hbs[2].At) {
+			got[m.Seq] = m.Raw
+		}
+	}
+	var problems []string
+	for _, h := range hbs[:2] {
+		r, ok := got[h.Seq]
+		if !ok {
+			problems = append(problems, fmt.Sprintf("the heartbeat numbered %d was not retransmitted", h.Seq))
+			continue
+		}
+		if string(r) != string(h.Raw) {
+			problems = append(problems, fmt.Sprintf("the retransmission under number %d differs from what was sent: %q vs %q", h.Seq, r, h.Raw))
+		}
+	}
+	if len(problems) > 0 {
+		verdict("C10", mode, "resend", "fail: "+problems[0], tags...)
+	} else {
+		verdict("C10", mode, "resend", "ok", tags...)
+	}
+}
+
 func main() {
 	tier := flag.String("tier", "quick", "quick|thorough")
 	outPath := flag.String("out", "-", "output")
@@ -424,6 +498,8 @@ func main() {
 		run(func() { silenceScenario("I", 40, "probe-only") })
 		run(func() { silenceScenario("A", 39, "probe-only") })
 	}
+	run(func() { resendTimerHeartbeats("A") })
+	run(func() { resendTimerHeartbeats("I") })
 	for _, d := range []time.Duration{0, 50 * time.Millisecond, 500 * time.Millisecond} {
 		d := d
 		run(func() { stopDeadline("A", d) })
